@@ -5,8 +5,10 @@
    11 = a decoded stored form is not re-encodable / not stable;
    12 = query-form round trip of options loses more than empty metadata keys;
    13 = options decoded from a query do not re-encode to themselves;
+   15 / 16 = a well-formed record does not survive msgpack / JSON (tag 1: it carries an element of a bare
+        multiaddr.Multiaddr interface type, finding origins-undecodable);
    14 = a status filter of defined bits / a named pin type / a pin mode does not survive its string form. *)
-From V Require Import Base.Common Base.C08_Str Model.C08_Codec Model.C08_Query Model.C08_Status.
+From V Require Import Base.Common Base.C08_Str Model.C08_Codec Model.C08_Query Model.C08_Status Base.C08_Schema Gen.C08Tags Model.C08_Fmap.
 Open Scope Z_scope.
 
 (* ---- decidable equalities on the value types ---- *)
@@ -63,6 +65,51 @@ Definition model_qcycle (orc : oracle) (o : opts) : obs_q :=
   | Ok q => match from_query orc (0, 0%N) zero_opts q with Ok o' => ObsQ o' | Err => ObsQDecErr end
   end.
 
+(* ---- generic record values ---- *)
+Fixpoint val_eqb (a b : val) {struct a} : bool :=
+  match a, b with
+  | VInt x, VInt y => x =? y
+  | VUint x, VUint y => (x =? y)%N
+  | VStr x, VStr y | VBytes x, VBytes y => String.eqb x y
+  | VBool x, VBool y => Bool.eqb x y
+  | VTime x, VTime y => time_eqb x y
+  | VCid x, VCid y => cid_eqb x y
+  | VPeer x, VPeer y => tok_eqb x y
+  | VAddr x, VAddr y => opt_eqb String.eqb x y
+  | VList x, VList y =>
+      (fix go (x y : list val) {struct x} : bool :=
+         match x, y with [], [] => true | p :: r, q :: s => val_eqb p q && go r s | _, _ => false end) x y
+  | VMap x, VMap y =>
+      (fix go (x y : list (string * val)) {struct x} : bool :=
+         match x, y with
+         | [], [] => true
+         | (k, p) :: r, (k', q) :: s => String.eqb k k' && val_eqb p q && go r s
+         | _, _ => false end) x y
+  | VPtr None, VPtr None => true
+  | VPtr (Some x), VPtr (Some y) => val_eqb x y
+  | VRec x, VRec y =>
+      (fix go (x y : list val) {struct x} : bool :=
+         match x, y with [], [] => true | p :: r, q :: s => val_eqb p q && go r s | _, _ => false end) x y
+  | _, _ => false
+  end.
+
+Inductive obs_v := ObsV (v : val) | ObsVEncErr | ObsVDecErr.
+Definition obs_v_eqb (a b : obs_v) : bool :=
+  match a, b with
+  | ObsV x, ObsV y => val_eqb x y
+  | ObsVEncErr, ObsVEncErr | ObsVDecErr, ObsVDecErr => true
+  | _, _ => false end.
+
+Definition model_vcycle (c : codec) (tn : string) (v : val) : obs_v :=
+  match enc c api_schema (TStruct tn) v with
+  | Err => ObsVEncErr
+  | Ok w => match dec c api_schema (TStruct tn) w with Ok v' => ObsV v' | Err => ObsVDecErr end
+  end.
+
+(* well-formed for the property: interface-typed elements included; the recogniser of the finding picks those out *)
+Definition spec_v (c : codec) (tn : string) (v : val) (o : obs_v) : bool :=
+  if wf_val c api_schema true (TStruct tn) false v then obs_v_eqb o (ObsV v) else true.
+
 Inductive payload :=
   | CPb (p : pin) (o : obs_pin)
   | CPbMsg (old : pin) (m : pbpin) (o o2 : obs_pin)
@@ -71,7 +118,9 @@ Inductive payload :=
   | CStatus (m : N) (s : string) (back : N)        (* TrackerStatus(m).String() = s ; TrackerStatusFromString(s) = back *)
   | CStatusRaw (s : string) (back : N)             (* TrackerStatusFromString on an arbitrary string *)
   | CPinType (t : N) (s : string) (back : N)       (* PinType(t).String() ; PinTypeFromString *)
-  | CModeStr (m : Z) (s : string) (back : Z).      (* PinMode(m).String() ; PinModeFromString *)
+  | CModeStr (m : Z) (s : string) (back : Z)       (* PinMode(m).String() ; PinModeFromString *)
+  | CMsgpack (tn : string) (v : val) (o : obs_v)   (* value of record type tn through the msgpack codec into a fresh value *)
+  | CJson (tn : string) (v : val) (o : obs_v).
 
 Definition case := (N * payload)%type.
 
@@ -131,6 +180,12 @@ Definition check_case (c : case) : list (N * N * N) :=
   | CModeStr m s back =>
       fail_if (negb (String.eqb s (mode_string m) && (back =? mode_from_string s))) id 1 0 ++
       fail_if (((m =? 0) || (m =? 1)) && negb (back =? m)) id 14 0
+  | CMsgpack tn v o =>
+      fail_if (negb (obs_v_eqb (model_vcycle Msgpack tn v) o)) id 1 0 ++
+      fail_if (negb (spec_v Msgpack tn v o)) id 15 (if has_iface api_schema (TStruct tn) v then 1 else 0)
+  | CJson tn v o =>
+      fail_if (negb (obs_v_eqb (model_vcycle Json tn v) o)) id 1 0 ++
+      fail_if (negb (spec_v Json tn v o)) id 16 (if has_iface api_schema (TStruct tn) v then 1 else 0)
   end.
 
 Definition failing (cs : list case) : list (N * N * N) := flat_map check_case cs.
